@@ -757,9 +757,12 @@ class Terms:
                 k = op_const(it["op"])
                 if k is not None:
                     return const_term(k)
-            if it.get("k") in ("array", "tuple", "agg"):
+            if it.get("k") in ("array", "tuple"):
                 ops = [self._prom_op(o) for o in it.get("ops", [])]
-                return (it["k"],) + tuple(ops)
+                return (it["k"], tuple(ops))
+            if it.get("k") == "agg":
+                ops = [self._prom_op(o) for o in it.get("ops", [])]
+                return ("agg", it.get("adt", "?"), it.get("variant", "?"), tuple(zip(it.get("fields", []), ops)))
             if it.get("k") == "call":
                 return ("call", it["callee"], tuple(self._prom_op(o) for o in it.get("args", [])))
         return ("promoted", idx)
